@@ -756,6 +756,8 @@ def run_once(scn, ch, fault=None, before_main=None):
     choices of ``ch``.  Returns an Exec."""
     common.import_ddsmt()
     install()
+    from . import graph
+    graph.Meter.install()
     from ddsmt import __main__ as ddmain
     from ddsmt import tmpfiles
     d = workdir()
@@ -954,6 +956,8 @@ def explore_scenarios(scenarios, judge, budgets_of, want=48, max_execs=None):
 def _init_worker():
     common.import_ddsmt()
     install()
+    from . import graph
+    graph.Meter.install()
 
 
 def account(part, scn, ch, x):
